@@ -26,7 +26,9 @@ ASSUMPTIONS = ['file names are fresh (16 random bytes)', 'POSIX (os.linesep == "
                'overlapping stores: the model store/fetch is a function of one value; that two stores through one shared Disk object do not '
                'interfere is checked by the overlapping_stores monitor only (threads and re-entrant pickling hooks), not proved',
                'counters: that the number incr / decr returns is the value stored from then on (or the call raises and the previous number stays) is decided by '
-               'the counters monitor only; the model store/fetch has no read-modify-write entry point']
+               'the counters monitor only; the model store/fetch has no read-modify-write entry point',
+               'later lookups: that a lookup is independent of what the caller did to the objects of earlier lookups / stores (the model fetch is a function of the '
+               'row and the file alone) is decided by the mutated_results monitor only']
 
 BIG = 2 ** 15
 
@@ -1270,6 +1272,203 @@ def counters(ctx, res, stats, thorough):
                 'rejected': st['steps_rejected']})
 
 
+# ---------------------------------------------------------------------------------------------------------------
+# "EVERY LATER lookup returns an equal value": what a caller does with the object an earlier lookup (or the store) was given / gave
+# back is the caller's business.  Mutable values are stored, looked up, the returned object is changed in place, and looked up again,
+# through every accessor, under the same key and under another key that holds an equal value.
+
+class Box:
+    """a plain picklable object with attributes; equal when the class and the attributes are equal"""
+
+    def __init__(self, **kw):
+        self.__dict__.update(kw)
+
+    def __eq__(self, o):
+        return type(o) is Box and self.__dict__ == o.__dict__
+
+    def __ne__(self, o):
+        return not self.__eq__(o)
+
+    __hash__ = None
+
+    def __repr__(self):
+        return 'Box(%s)' % ', '.join('%s=%r' % kv for kv in sorted(self.__dict__.items()))
+
+
+_MUT = '<changed by the caller>'
+
+
+def mutate(x, depth=0):
+    """change x in place wherever it can be changed (the top-level object and what it contains) -> True when something was changed"""
+    import collections
+    changed = False
+    if depth > 6:
+        return False
+    if isinstance(x, list):
+        for e in list(x):
+            mutate(e, depth + 1)
+        x.append(_MUT)
+        x.reverse()
+        changed = True
+    elif isinstance(x, collections.deque):
+        for e in list(x):
+            mutate(e, depth + 1)
+        x.appendleft(_MUT)
+        changed = True
+    elif isinstance(x, dict):
+        for e in list(x.values()):
+            mutate(e, depth + 1)
+        for k in list(x)[:1]:
+            x[k] = _MUT
+        x[_MUT] = 1
+        changed = True
+    elif isinstance(x, set):
+        x.add(_MUT)
+        changed = True
+    elif isinstance(x, bytearray):
+        x.extend(b'!')
+        x.reverse()
+        changed = True
+    elif isinstance(x, tuple):
+        for e in x:
+            changed = mutate(e, depth + 1) or changed
+    elif isinstance(x, Box):
+        for e in list(x.__dict__.values()):
+            mutate(e, depth + 1)
+        x.changed = _MUT
+        changed = True
+    return changed
+
+
+def mutable_values(m):
+    """prototypes (deep-copied for every use) of mutable picklable values; most are far below any file threshold, some cross m"""
+    import collections
+    return [[0], [], [1, 2], {}, {'a': 1}, {'k': [1, 2], 'z': None}, set(), {1, 2}, bytearray(), bytearray(b'abc'), [[1], [2]],
+            ([1], 'x'), {'cfg': {'x': [1]}, 'retries': 3}, SubList([1, [2]]), SubDict({'k': 1}), Box(a=1, items=[1]), Box(),
+            collections.deque([1, 2]), collections.OrderedDict([('b', 1), ('a', [2])]), [b'x' * (min(m, 64) + 1)], [None], [''], {'': ''}]
+
+
+def mutation_case(o, table, storer, proto, op, key, skip=()):
+    """Two equal values (separate copies of `proto`) are stored under two keys through one entry point; the caller then changes its own
+    objects in place; every non-removing accessor looks up each key (twice the first, once the second), and every object handed back is
+    changed in place as soon as it has been compared; at last two removing accessors.  Each lookup must equal the value as it was when
+    it was stored.  -> (problems [(sig, desc, reader)], outcome)"""
+    import copy
+    t = EP_TABLE[table]
+    put = t['storers'][storer][1]
+    pristine = copy.deepcopy(proto)           # never handed to the library, never changed
+    keyed = table not in ('Deque',)
+    k1, k2 = (key + '.a', key + '.b') if not table.endswith('.queue') and keyed else (key, key)
+    mine = [copy.deepcopy(proto), copy.deepcopy(proto)]
+    stored = []
+    try:
+        for k, v in zip((k1, k2), mine):
+            put(o, k, v, False, op)
+            stored.append(k)
+    except Exception as e:  # noqa -- rejected with an exception: allowed (other monitors look at what is left behind)
+        for k in stored:
+            try:
+                t['remove'](o, k, op)
+            except Exception:  # noqa
+                pass
+        return [], 'rejected:' + type(e).__name__
+    for v in mine:
+        mutate(v)                              # the objects given to the store are the caller's again
+    problems = []
+    history = []
+
+    def look(name, f, k):
+        try:
+            got = f(o, k, op)
+            ok = same(got, pristine)
+        except Exception as e:  # noqa
+            got, ok = ('<raised>', type(e).__name__, str(e)[:80]), False
+        history.append('%s(%s)' % (name, 'second key' if k == k2 and k1 != k2 else 'first key' if k1 != k2 else 'element'))
+        if not ok:
+            problems.append(('lookup_after_caller_mutation:%s' % table,
+                             '%s: %s stored through %s under two keys; the caller changed in place the objects it had stored and every object a lookup '
+                             'handed back; lookups so far: %s; the last one returned %s, the stored value is %s'
+                             % (table, short(pristine), storer, ', '.join(history[-6:]), short(got), short(pristine)), name))
+            return False
+        mutate(got)
+        return True
+
+    readers = [r for r in t['readers'] if r[0] not in skip]
+    alive = True
+    for name, f, destructive in readers:
+        if destructive or not alive:
+            continue
+        last_only = name.startswith('peekitem') or name in ('values',)       # accessors of the LAST item
+        for k in ((k2, k2) if last_only else (k1, k1, k2)):
+            if not look(name, f, k):
+                alive = False
+                break
+    removers = [r for r in readers if r[2]]
+    left = [k1, k2]
+    if alive and removers:
+        i = sum(ord(ch) for ch in key) % len(removers)
+        for j, k in enumerate((k2, k1)):       # the last item first (popitem / peekitem-style accessors address the end)
+            name, f, _ = removers[(i + j) % len(removers)]
+            left.remove(k)
+            if not look(name, f, k):
+                break
+    for k in left:
+        try:
+            t['remove'](o, k, op)
+        except Exception:  # noqa
+            pass
+    return problems, 'stored'
+
+
+MUT_EXTRA_CONTAINERS = ['Cache/JSONDisk']
+JSON_RAW_READERS = ('get(read=True)', 'read')       # a read handle on a JSONDisk value file gives the compressed JSON text, not the value
+
+
+def mutated_results(ctx, res, stats, thorough):
+    """Mutable values (list, dict, set, bytearray, deque, OrderedDict, nested, list / dict subclasses, plain objects) x every container
+    (and the containers a FanoutCache / DjangoCache hands out, and a JSONDisk cache) x thresholds x protocols x rotating storing entry
+    points and options: see mutation_case."""
+    st = stats.setdefault('mutated_results', {'cases': 0, 'rejected': {}})
+    protos = [0, 2, pickle.HIGHEST_PROTOCOL] + ([1, 3, 4] if thorough else [])
+    plan = [(c, m) for m in ((0, 8, BIG) if thorough else (8, BIG)) for c in EP_CONTAINERS + MUT_EXTRA_CONTAINERS] + [(c, BIG) for c in EP_SUBCONTAINERS]
+    n = 0
+    for ci, (container, m) in enumerate(plan):
+        for protocol in (protos if thorough and container == 'Cache' and m == BIG else [protos[(ci + ctx.seed) % 3]]):
+            o, tables, close = mut_make(ctx.scratch, container, m, protocol)
+            try:
+                for table in tables:
+                    t = EP_TABLE[table]
+                    storers = [s for s in sorted(t['storers']) if t['storers'][s][0] in ('both', 'plain')]
+                    for vi, proto in enumerate(mutable_values(m)):
+                        if container == 'Cache/JSONDisk' and not json_ok(proto):
+                            continue
+                        for storer in (storers if thorough else [storers[(vi + ci + ctx.seed) % len(storers)]]):
+                            n += 1
+                            oi = n + ctx.seed
+                            skip = () if thorough or n % 8 == 0 else EP_COSTLY
+                            if container == 'Cache/JSONDisk':
+                                skip = tuple(skip) + JSON_RAW_READERS
+                            problems, outcome = mutation_case(o, table, storer, proto, ep_options(oi), 'm%d' % n, skip)
+                            st['cases'] += 1
+                            if outcome != 'stored':
+                                st['rejected'][outcome] = st['rejected'].get(outcome, 0) + 1
+                            res.count(['mutated', container, table, storer, m, protocol, short(proto)], nontrivial=outcome == 'stored')
+                            for sig, desc, reader in problems:
+                                res.violations.append(fw.Violation(sig, desc, {
+                                    'check': 'mutated_result', 'container': container, 'table': table, 'storer': storer, 'reader': reader,
+                                    'min_file_size': m, 'protocol': protocol, 'value_index': vi, 'value': short(proto), 'options_index': oi}))
+            finally:
+                close()
+    res.sample({'check': 'mutated_results', 'cases': st['cases'], 'rejected': st['rejected']})
+
+
+def mut_make(ctx_scratch, container, m, protocol):
+    if container == 'Cache/JSONDisk':
+        o = diskcache.Cache(ctx_scratch('c01mj'), disk=diskcache.JSONDisk, disk_min_file_size=m, eviction_policy='none')
+        return o, ['Cache', 'Cache.queue'], o.close
+    return ep_make(ctx_scratch, container, m, protocol)
+
+
 def witnesses(res):
     """Replay the witnesses of the findings listed for C01 on the implementation."""
     import tempfile, shutil
@@ -1318,7 +1517,12 @@ def run(ctx, big_budget=False):
                 'value of the same type, or the store raised and nothing is there.  Counters: incr / decr are storing entry points whose RESULT is the stored '
                 'value: counters of Cache / FanoutCache / DjangoCache (and of the Cache those hand out), thresholds {0,8,32768}, created by set / add / incr / '
                 'decr, walked one by one and by jumps across +-2^31, +-2^53, +-2^63 and up to 2^65 / 10^30 in both directions; after every call every '
-                'accessor returns, as an int, the number the call returned, or the previous number when the call raised.')
+                'accessor returns, as an int, the number the call returned, or the previous number when the call raised.  Later lookups: 23 mutable values '
+                '(list, dict, set, bytearray, deque, OrderedDict, nested ones, list / dict subclasses, plain objects) stored as two separate copies under two '
+                'keys (two elements of a Deque / queue) through a rotating storing entry point of every container (also a JSONDisk cache and the containers '
+                'a FanoutCache / DjangoCache hands out) x min_file_size {8,32768} (thorough: 0 too) x protocols; the caller then changes its own objects in '
+                'place and changes every object a lookup hands back; every non-removing accessor looks up the first key twice and the second once, then two '
+                'removing accessors: each result equals the value as it was stored.')
     import time as _t
     t0 = _t.time()
     stats = {'rejected': {}, 'kinds': {}, 'file_backed': 0, 'accessor_calls': 0}
@@ -1352,6 +1556,10 @@ def run(ctx, big_budget=False):
     counters(ctx, res, stats, thorough)
     res.extra['timing']['counters_s'] = round(_t.time() - t2, 1)
     res.extra['counters'] = stats.get('counters')
+    t2 = _t.time()
+    mutated_results(ctx, res, stats, thorough)
+    res.extra['timing']['mutated_results_s'] = round(_t.time() - t2, 1)
+    res.extra['mutated_results'] = stats.get('mutated_results')
     t2 = _t.time()
     overlapping_stores(ctx, res, stats, thorough)
     res.extra['timing']['overlapping_stores_s'] = round(_t.time() - t2, 1)
@@ -1389,6 +1597,20 @@ def replay(payload):
             problems, outcomes = counter_walk(o, tables[0], case['container'], int(case['start']), [int(x) for x in case['deltas']], case['created_by'], 'r')
             print('counter from %s by %s: %s' % (case['start'], case['created_by'], list(zip(case['deltas'], outcomes))))
             for sig, desc, i, reader in problems:
+                print(sig, desc)
+            return not problems
+        finally:
+            close()
+            shutil.rmtree(d, ignore_errors=True)
+    if case.get('check') == 'mutated_result':
+        d = tempfile.mkdtemp(prefix='c01r-')
+        o, tables, close = mut_make(lambda name: tempfile.mkdtemp(prefix=name + '-', dir=d), case['container'], case['min_file_size'], case['protocol'])
+        try:
+            proto = mutable_values(case['min_file_size'])[case['value_index']]
+            problems, outcome = mutation_case(o, case['table'], case['storer'], proto, ep_options(case['options_index']), 'r',
+                                              JSON_RAW_READERS if case['container'] == 'Cache/JSONDisk' else ())
+            print('%s.%s(two copies of %s) -> %s' % (case['table'], case['storer'], short(proto), outcome))
+            for sig, desc, reader in problems:
                 print(sig, desc)
             return not problems
         finally:
